@@ -228,6 +228,10 @@ def _wide_catalogue(cfg):
             ("durations", ("c", "nonrep", "duration"), [1]),
             ("estimate", ("c", "duration_factor"), [0.0, 0.001]),
             ("sims", ("c", "n_sims"), [2, 3]),
+            # more simulations than one batch of 5 holds, and not a multiple of 5 (batches [5, 1] / [5, 2])
+            ("sims-batch", ("c", "n_sims"), [6, 7]),
+            # values of another numeric type than the defaults: fractional days
+            ("fractional", ("c", "repair_delay"), [[2.5, 6.5], [0.75, 10.25]]),
             ("economics", ("c", "economics"), ["per-program"])]
     return cat
 
@@ -544,3 +548,77 @@ def run_config(cfg, debug=True, processes=1, trace=True, workdir=None, keep_inpu
     if trace and os.path.exists(job["trace_path"]):
         tr = json.load(open(job["trace_path"]))
     return Result(cfg, root, out_dir, tr, p.returncode, p.stdout, own)
+
+
+# ------------------------------------------------------------------------------------------------
+# run histories: the same input / generator folder used by an earlier run with other parameters.
+# A property must hold for the run the user asked for, whatever was run in that folder before; the
+# generator cache (inputs/generator) and the output folder are state that survives between runs.
+# ------------------------------------------------------------------------------------------------
+def prev_variant(cfg, rng):
+    """a configuration an EARLIER run in the same folder could have had: `cfg` with one defining leaf
+    changed (chosen by `rng`).  Returns (cfg_prev, what_differs)."""
+    import copy as _c
+
+    prev = _c.deepcopy(cfg)
+    prev.pop("wide_applied", None)
+    kinds = ["period-start", "period-end", "site-count", "per-site-cost", "coverage", "repair-delay",
+             "duration", "surveys-per-year", "months", "mdl", "pre-sim", "n-sims", "rates"]
+    mob = [m for m, d in prev["methods"].items() if d["deployment_type"] == "mobile" and not d["is_follow_up"]]
+    kind = rng.choice(kinds)
+    sd, ed = date(*prev["start"]), date(*prev["end"])
+    if kind == "period-start":
+        nd = sd - timedelta(days=rng.choice([31, 59, 120]))
+        prev["start"] = [nd.year, nd.month, nd.day]
+        if (ed.month, ed.day) < (nd.month, nd.day):      # keep the shape make_config guarantees
+            prev["start"] = [sd.year, 1, 1]
+    elif kind == "period-end":
+        ne = ed - timedelta(days=rng.choice([10, 40]))
+        if ne > sd and (ne.month, ne.day) >= (sd.month, sd.day):
+            prev["end"] = [ne.year, ne.month, ne.day]
+        else:
+            kind = "site-count"
+    if kind == "site-count":
+        k = max(2, prev["n_sites"] - rng.choice([1, 2]))
+        prev["n_sites"] = k                                   # `site_samples` of the earlier run
+    elif kind == "per-site-cost" and mob:
+        for m in mob:
+            c = prev["methods"][m]["cost"]
+            c["per_site"] = (c.get("per_site") or 0.0) + 32.0
+    elif kind == "coverage" and mob:
+        for m in mob:
+            prev["methods"][m]["spatial"] = 1.0 if prev["methods"][m]["spatial"] != 1.0 else 0.5
+    elif kind == "repair-delay":
+        prev["repair_delay"] = [d + 5 for d in prev["repair_delay"]]
+    elif kind == "duration":
+        prev["rep"]["duration"] = prev["rep"]["duration"] + 30
+        prev["nonrep"]["duration"] = prev["nonrep"]["duration"] + 10
+    elif kind == "surveys-per-year" and mob:
+        for m in mob:
+            prev["methods"][m]["surveys_per_year"] = prev["methods"][m].get("surveys_per_year", 1) + 2
+    elif kind == "months" and mob:
+        for m in mob:
+            prev["methods"][m]["months"] = [4, 5, 6] if prev["methods"][m]["months"] != [4, 5, 6] else [7, 8]
+    elif kind == "mdl" and mob:
+        for m in mob:
+            prev["methods"][m]["mdl"] = prev["methods"][m]["mdl"] * 4
+    elif kind == "pre-sim":
+        prev["pre_sim_emissions"] = not prev["pre_sim_emissions"]
+    elif kind == "n-sims":
+        prev["n_sims"] = prev["n_sims"] + 1
+    elif kind == "rates":
+        prev["rates"] = [r * 2 for r in prev["rates"]]
+    return prev, kind
+
+
+def run_after(cfg_prev, cfg, **kw):
+    """run `cfg_prev`, then `cfg` in the SAME folder (input files rewritten, generator folder and output
+    folder left as the first run left them); returns the Result of the second run with `.prev_rc` and
+    `.prev_log` of the first.  A first run that stops does not stop the history."""
+    root = kw.pop("workdir", None) or tempfile.mkdtemp(prefix="ldarverif_")
+    first_kw = dict(kw, trace=False)
+    r0 = run_config(cfg_prev, workdir=root, **first_kw)
+    r = run_config(cfg, workdir=root, keep_inputs=True, **kw)
+    r.prev_rc, r.prev_log = r0.rc, r0.log[-2000:] if r0.log else ""
+    r._own = True       # the history owns the folder: Result.cleanup() of the second run removes it
+    return r
